@@ -237,3 +237,4 @@ func amountOf(cs sdk.Coins, denom string) *big.Int { return bi(cs.AmountOf(denom
 func boundaryHeight(c int) int64 {
 	return []int64{1, 200, 65400, 16777100, 4294967200}[c%5]
 }
+
